@@ -15,6 +15,7 @@ a lambda expression are rewritten (lambdas handed to std::function, std::sort, .
 By-value captures of variables that are assigned anywhere in the caller, parameters assigned inside the lambda, and
 recursive situations are left alone.  The lambda's own function entry stays in the fact base."""
 import copy
+import re
 
 from .facts import walk, kids, strip_all, NAMED_CHILD_KEYS
 
@@ -209,7 +210,16 @@ class Inliner:
             if g.get("method"):
                 return None
             if g.get("file") != f.get("file") or not str(g.get("file")).endswith(".cpp"):
-                return None
+                # in headers: only trivial out-parameter forwarders next to their caller (an overload set that replaces an
+                # if-chain over the type): at most two straight-line statements, every parameter a reference
+                body = g["body"].get("c", []) if g["body"].get("k") == "CompoundStmt" else [g["body"]]
+                if not (g.get("file") == f.get("file") and len(body) <= 2 and g["params"] and
+                        re.search(r"(^|::)(detail|\(anonymous namespace\))::", str(g.get("name"))) and
+                        all(p.get("ref") for p in g["params"]) and str(g.get("ret") or "").strip() == "void" and
+                        not any(x.get("k") in ("IfStmt", "ForStmt", "WhileStmt", "DoStmt", "SwitchStmt", "ReturnStmt",
+                                               "CXXTryStmt", "CXXForRangeStmt") for x in walk(g["body"]))):
+                    return None
+                return g if not any(x.get("mg") == n["mg"] for x in walk(g["body"]) if x.get("k") == "CallExpr") else None
         if any(x.get("mg") == n["mg"] for x in walk(g["body"]) if x.get("k") in ("CallExpr", "CXXMemberCallExpr")):
             return None     # recursive
         return g
@@ -261,11 +271,13 @@ class Inliner:
             if g is None:
                 continue
             params, args = g["params"], list(call_args(n))
-            if only_fp and not any("(*)" in str(p.get("t") or "") or "(lambda at" in str(p.get("t") or "") for p in params):
+            trivial_fwd = not str(g.get("file")).endswith(".cpp") and n.get("k") == "CallExpr"
+            if only_fp and not trivial_fwd and not any("(*)" in str(p.get("t") or "") or "(lambda at" in str(p.get("t") or "") for p in params):
                 continue
             if len(args) != len(params) or any(a.get("k") == "CXXDefaultArgExpr" for a in args):
                 continue
-            if {p["id"] for p in params} & _assigned_ids(g["body"]):
+            # a by-value parameter that is assigned is a local of the helper; an assigned reference is the argument itself
+            if {p["id"] for p in params if not p.get("ref") or p.get("cref")} & _assigned_ids(g["body"]):
                 continue
             env = {p["id"]: a for p, a in zip(params, args)}
             body = g["body"]
